@@ -94,7 +94,7 @@ struct C14 : Property
 			{
 				op.kind = "ser";
 				static const int sf[] = {0, 1, 2, 2 | 8, 32, 1 | 32, 4, 1 | 4, 2 | 4 | 16};
-				op.a = {sf[r.below(9)], (int64_t)r.below(4), (int64_t)r.range(-2000000, 2000000), (int64_t)r.below(10)};
+				op.a = {sf[r.below(9)], (int64_t)r.below(4), (int64_t)r.range(-2000000, 2000000), (int64_t)r.below(11)};
 				op.data = r.pick(std::vector<std::string>{"[1.5,2.25,{\"d\":0.1,\"e\":-1234567.875}]", "0.5", "[1e300,1e-300,3.0,100.0]", "{\"x\":[0.001,1000.5]}", "[1,2,3.5]"});
 				break;
 			}
@@ -263,8 +263,8 @@ struct C14 : Property
 				double x = (double)op.arg(2) / 1024.0;
 				LIB(json_object_array_add(arr, json_object_new_double(x)));
 				// (flags and field widths included: the fix-up of the decimal separator must not depend on what surrounds the digits)
-				static const char *nodefmt[10] = {nullptr, "%.3f", "%.0f", "%e", "%.1f", "%8.3f", "%+.2f", "% .3f", "%-10.4f|", "%#.0f"};
-				const char *nf = nodefmt[op.arg(3) % 10];
+				static const char *nodefmt[11] = {nullptr, "%.3f", "%.0f", "%e", "%.1f", "%8.3f", "%+.2f", "% .3f", "%-10.4f|", "%#.0f", "%.140f"}; // last: longer than json-c's 128-byte scratch buffer
+				const char *nf = nodefmt[op.arg(3) % 11];
 				struct json_object *dn = LIB(json_object_new_double(x * 3));
 				if (nf)
 					LIBV(json_object_set_serializer(dn, json_object_double_to_json_string, (void *)nf, nullptr));
